@@ -234,6 +234,10 @@ class Opaque(object):
         def k(v):
             if isinstance(v, Opaque):
                 return v.key()
+            if hasattr(v, 'key') and callable(getattr(v, 'key')) and not isinstance(v, dict):
+                return v.key()
+            if isinstance(v, int) and not isinstance(v, bool):
+                return ('P', P.const(v).text())
             if isinstance(v, P):
                 return ('P', normal(v).text())
             if isinstance(v, (list, tuple)):
@@ -1304,6 +1308,8 @@ class Interp(object):
                 return a in b
             if hasattr(b, 'sym_contains'):
                 return b.sym_contains(self, a)
+            if b is None or isinstance(b, (int, P, bool)):
+                raise SymRaise('TypeError', ("argument of type '%s' is not iterable" % ('NoneType' if b is None else type(b).__name__),), node)
             raise CheckerError('line %d: "in" on %r' % (node.lineno, type(b).__name__))
         if name == 'NotIn':
             r = self.cmp1(ast.In(), a, b, node)
